@@ -89,6 +89,42 @@ def run(chk):
     finally:
         ops_mod._dotop = saved
 
+    # ---- the atlas the runner builds from the cards: the wall of each heavy quark is ITS matching scale (k_q m_q)^2, in the order charm, bottom, top -- also when
+    #      the ratios put the charm wall above the bottom wall (the walls are positional: sorting them would hand the charm matching the bottom scale)
+    from eko.runner import commons as _commons
+
+    class _B:
+        pass
+
+    fna = "eko.runner.commons:atlas"
+    chk.under_contract(fna)
+    for lab, ratios in (("ordered", (1.0, 1.0, 1.0)), ("charm_wall_above_bottom_wall", (4.0, 1.0, 1.0)), ("top_wall_below_bottom_wall", (1.0, 2.0, 0.02))):
+        th_, op_ = _B(), _B()
+        th_.heavy = _B()
+        th_.heavy.matching_ratios = list(ratios)
+        op_.configs = _B()
+        op_.configs.evolution_method = "truncated"
+        op_.mu20, op_.init = 2.7225, (1.65, 4)
+        m2 = [2.0, 20.0, 30000.0]
+        saved_m = _commons.runcards.masses
+        _commons.runcards.masses = lambda t, m, m2=m2: list(m2)
+        try:
+            at_ = _commons.atlas(th_, op_)
+        except Exception as e:  # noqa: BLE001
+            chk.raised(f"C02.atlas_of_the_cards[{lab}]", e, fn=fna, replay=rp)
+            continue
+        finally:
+            _commons.runcards.masses = saved_m
+        if True:
+            num_ = lambda w: float(complex(T.evalmp(T.lift(w), {}, 30)).real) if isinstance(w, T.Sym) else float(w)  # noqa: E731
+            is_inf = lambda w: w is vnp.INF or (isinstance(w, float) and w == float("inf"))  # noqa: E731
+            walls_ = [num_(w) for w in list(at_.walls)[1:-1]]
+            want_ = [k * k * m for k, m in zip(ratios, m2)]
+            okw = len(walls_) == 3 and all(abs(a - b) <= 1e-12 * b for a, b in zip(walls_, want_)) and num_(list(at_.walls)[0]) == 0.0 and is_inf(list(at_.walls)[-1])
+            oko = abs(num_(at_.origin[0]) - 2.7225) <= 1e-15 and at_.origin[1] == 4
+            chk.ground(f"C02.atlas_of_the_cards[{lab}]", okw and oko, fn=fna, replay=rp, detail=f"walls {list(at_.walls)}, origin {at_.origin}; wanted interior walls {want_}",
+                       goal="walls == [0, (k_c m_c)^2, (k_b m_b)^2, (k_t m_t)^2, inf] in quark order, origin == (mu0^2, nf0) of the operator card")
+
     # ---- _elements / _create over symbolic atlases ----------------------------------------------------------------------------------
     c, b, t, mu0 = (T.var(x) for x in ("c", "b", "t", "mu0"))
     walls = [c, b, t]
